@@ -2,7 +2,7 @@
    on the inputs the harness ran through the Go implementation and compares
    with what the implementation returned. *)
 From BU Require Export Lib.Bytes.
-From BU Require Import Lib.Sha256 Lib.Slice Base58.Base58 Bech32.Bech32 Bech32.Purity.
+From BU Require Import Lib.Sha256 Lib.Slice Base58.Base58 Bech32.Bech32 Bech32.PurityModel.
 
 Inductive case :=
 | Sha (msg out : list N)                                  (* crypto/sha256 vs Lib.Sha256 *)
